@@ -62,9 +62,13 @@ _dbus_validate_signature_with_reason (const DBusString *type_str,
 
   int element_count;
   DBusList *element_count_stack;
+  /* the opening bracket characters of the containers we are currently inside, innermost last */
+  char opened_brackets[DBUS_MAXIMUM_TYPE_RECURSION_DEPTH * 2 + 1] = { '\0' };
+  int n_opened_brackets;
 
   result = DBUS_VALID;
   element_count_stack = NULL;
+  n_opened_brackets = 0;
 
   if (!_dbus_list_append (&element_count_stack, _DBUS_INT_TO_POINTER (0)))
     {
@@ -136,6 +140,8 @@ _dbus_validate_signature_with_reason (const DBusString *type_str,
               goto out;
             }
 
+          _dbus_assert (n_opened_brackets < (int) _DBUS_N_ELEMENTS (opened_brackets));
+          opened_brackets[n_opened_brackets++] = DBUS_STRUCT_BEGIN_CHAR;
           break;
 
         case DBUS_STRUCT_END_CHAR:
@@ -150,6 +156,15 @@ _dbus_validate_signature_with_reason (const DBusString *type_str,
               result = DBUS_INVALID_STRUCT_HAS_NO_FIELDS;
               goto out;
             }
+
+          /* the innermost open container must be a struct: "(a{ss)i}" is not a signature */
+          _dbus_assert (n_opened_brackets > 0);
+          if (opened_brackets[n_opened_brackets - 1] != DBUS_STRUCT_BEGIN_CHAR)
+            {
+              result = DBUS_INVALID_STRUCT_ENDED_BUT_NOT_STARTED;
+              goto out;
+            }
+          n_opened_brackets -= 1;
 
           _dbus_list_pop_last (&element_count_stack);
 
@@ -178,6 +193,8 @@ _dbus_validate_signature_with_reason (const DBusString *type_str,
               goto out;
             }
 
+          _dbus_assert (n_opened_brackets < (int) _DBUS_N_ELEMENTS (opened_brackets));
+          opened_brackets[n_opened_brackets++] = DBUS_DICT_ENTRY_BEGIN_CHAR;
           break;
 
         case DBUS_DICT_ENTRY_END_CHAR:
@@ -186,6 +203,15 @@ _dbus_validate_signature_with_reason (const DBusString *type_str,
               result = DBUS_INVALID_DICT_ENTRY_ENDED_BUT_NOT_STARTED;
               goto out;
             }
+
+          /* likewise the innermost open container must be a dict entry */
+          _dbus_assert (n_opened_brackets > 0);
+          if (opened_brackets[n_opened_brackets - 1] != DBUS_DICT_ENTRY_BEGIN_CHAR)
+            {
+              result = DBUS_INVALID_DICT_ENTRY_ENDED_BUT_NOT_STARTED;
+              goto out;
+            }
+          n_opened_brackets -= 1;
             
           dict_entry_depth -= 1;
 
